@@ -46,11 +46,17 @@ def ensure_deps():
         sys.path.append(DEPS)
 
 
-def import_repo():
-    """Import amr_kitchen from the working tree named by VERIF_REPO and prove it."""
+def import_repo(scratch=None):
+    """Import amr_kitchen from the working tree named by VERIF_REPO and prove it.
+    Subprocess entries (which leave through os._exit, so no atexit clean-up) pass the work directory
+    their parent gave them instead of making a scratch root of their own."""
     os.environ[GUARD] = "1"
     os.environ.setdefault("MPLBACKEND", "Agg")
-    scratch_root()
+    if scratch:
+        os.makedirs(os.path.join(scratch, "mpl"), exist_ok=True)
+        os.environ.setdefault("MPLCONFIGDIR", os.path.join(scratch, "mpl"))
+    else:
+        scratch_root()
     if sys.path[0] != REPO:
         sys.path.insert(0, REPO)
     import amr_kitchen
